@@ -226,6 +226,8 @@ def check(ctx: Ctx) -> None:
     _check_combine_per_combination(ctx)
     from ..idioms import check_exact_matching
     check_exact_matching(ctx, 'C06.g', ['pyphysim/simulations/parameters.py', RES], floor=40)
+    from ..idioms import check_restores_protected
+    check_restores_protected(ctx, 'C06.h', [RES], floor=40)
 
 
 def _stored_attrs(nodes, sn: str, model=None, cls=None, depth: int = 0) -> Set[str]:
